@@ -73,6 +73,7 @@ class C20System(BuilderSystem):
             "addF": Hook("addF", st.log, add={"F": 1500}),
             "addQ": Hook("addQ", st.log, add={"Q": 7}, fresh=True),
             "onlyF": Hook("onlyF", st.log, keep=("F",)),
+            "zeroFS": Hook("zeroFS", st.log, add={"F": 0, "S": 0}),           # a hook that stops feed and power (laser off while travelling)
             "ext1": Hook("ext1", st.log, inner=extrusion_hook(*GEOM["ext1"])),
             "ext2": Hook("ext2", st.log, inner=extrusion_hook(*GEOM["ext2"])),
         }
@@ -105,6 +106,10 @@ class C20System(BuilderSystem):
                 ["set_distance_mode", ["relative"]], ["set_distance_mode", ["absolute"]],
                 ["set_extrusion_mode", ["relative"]], ["set_extrusion_mode", ["absolute"]],
                 ["set_axis", [], {"E": 0}], ["set_axis", [], {"E": 2.5}]]
+        if getattr(self, "state_words", False):
+            # the F/S family: moves that carry F and S words of their own, no paths and no extrusion bookkeeping
+            ops = [o for o in ops if not o[0].startswith("trace.") and o[0] not in ("set_extrusion_mode", "set_axis", "move_absolute", "rapid_absolute")]
+            ops += [["move", [], {"x": 1.5, "S": 40}], ["move", [], {"y": -1.0, "F": 600, "S": 0}]]
         if getattr(self, "unknown_start", False):
             # calls after which some axis position is unknown to the builder (hooks are handed 0 for such an axis, never None)
             ops = [o for o in ops if not o[0].startswith("trace.") and o[0] not in ("move_absolute", "rapid_absolute")]
@@ -263,6 +268,11 @@ class C20System(BuilderSystem):
                     got = g.get_parameter(k)
                     if got is None or abs(float(got) - v) > unit + 1e-9:
                         problems.append(("parameter-not-remembered", f"{op}: emitted {k}={v} but get_parameter({k!r}) = {got!r}"))
+                    # feed rate and power are also remembered by the state object
+                    if last[-1]["kind"] != "G92" and k in ("F", "S"):
+                        got = g.state.feed_rate if k == "F" else g.state.tool_power
+                        if got is None or abs(float(got) - v) > unit + 1e-9:
+                            problems.append(("parameter-not-remembered-by-state", f"{op}: emitted {k}={v} but state reports {got!r}"))
         return problems
 
     def canon(self, st):
@@ -291,9 +301,12 @@ def systems(tier):
     a, b = C20System(), C20System()
     a.hook_names = ("rec", "addF", "ext1", "ext2")                 # in-place hooks and the bundled extrusion hook
     b.hook_names = ("ext1", "addQ", "onlyF", "meth")               # hooks returning new mappings, a filter, a bound method
+    c = C20System()
+    c.hook_names = ("addF", "zeroFS")
+    c.state_words = True
     if tier == "quick":
-        return [("hooks", a, 4, None), ("hooks-new-mappings", b, 3, None), ("hooks-unknown-position", unknown, 3, None)]
-    return [("hooks", a, 5, None), ("hooks-new-mappings", b, 5, None), ("hooks-all", C20System(), 4, None),
+        return [("hooks", a, 4, None), ("hooks-feed-and-power", c, 3, None), ("hooks-new-mappings", b, 3, None), ("hooks-unknown-position", unknown, 3, None)]
+    return [("hooks", a, 5, None), ("hooks-feed-and-power", c, 5, None), ("hooks-new-mappings", b, 5, None), ("hooks-all", C20System(), 4, None),
             ("hooks-unknown-position", unknown, 4, None)]
 
 
